@@ -175,7 +175,7 @@ type reference struct {
 	ranges   map[labels.Label]index.Range
 	symbols  []string
 	symRefs  []uint32 // reference of symbols[i]
-	lastName string // name/value of the last entry of the postings offset table
+	lastName string   // name/value of the last entry of the postings offset table
 	lastVal  string
 }
 
